@@ -5,6 +5,9 @@ The WHOLE option lattice: all 32 subsets of --enable={warning,style,performance,
 (group, option set).  A group is a set of files analysed together in one run:
   samples      /repo/samples/*/bad.c*
   handmade     small generated programs with at least one finding of every severity and inconclusive ones
+  multi-*      generated (vlib/c27c28_families.py): constructs whose checkers emit several ids of different severities
+               for the same argument / statement x a literal-kind alphabet (two-hole constructs: all pairs)
+  prov-*       generated: value-dependent checker triggers x provenance of the critical value x operand type
   triggers-N   code snippets mechanically extracted from the check("...") literals of /repo/test/test*.cpp; quick:
                one selection pass (--enable=all --inconclusive) picks, for every distinct (id, severity, certainty)
                kind observed, the first snippet showing it; thorough: every snippet
@@ -21,7 +24,7 @@ analysed code: its N legitimately depends on the options, so its message is norm
 presence is still gated and must still be monotone).
 """
 import glob, itertools, os, re
-from vlib import build, run, testsnippets
+from vlib import build, run, testsnippets, c27c28_families
 from vlib.core import Ctx, pmap, sha
 import time
 
@@ -155,6 +158,19 @@ def main(tier, replay=None):
             ws.write(n, c)
         for i, (origin, code) in enumerate(snippets):
             ws.write("s%05d.cpp" % i, code)
+        gen_groups = []
+        for fam, gen, per in (("multi", c27c28_families.multi_severity_files, 34), ("prov", c27c28_families.provenance_files, 12)):
+            for lang in (("cpp",) if tier == "quick" else ("cpp", "c")):
+                if tier == "quick":     # quick: pairs over the 10 basic literal kinds; operand types int and unsigned
+                    gf = gen(lang, small_pairs=True) if fam == "multi" else gen(lang, types=("int", "unsigned"))
+                else:
+                    gf = gen(lang)
+                gf = {n: c for n, c in gf.items() if c.count("\nlong ") > 0}
+                for n, c in gf.items():
+                    ws.write(n, c)
+                gn = sorted(gf)
+                for i in range(0, len(gn), per):
+                    gen_groups.append({"name": "%s-%s-%d" % (fam, lang, i // per), "paths": gn[i:i + per], "extra": []})
         if replay:
             a = replay["artefact"]
             g = a["group"]
@@ -199,6 +215,7 @@ def main(tier, replay=None):
             for i in range(0, len(allf), per):
                 groups.append({"name": "snippets-%d" % (i // per), "paths": allf[i:i + per], "extra": []})
             cfgs = sorted(os.path.basename(p) for p in glob.glob(os.path.join(REPO, "test", "cfg", "*.c*")))
+        groups = groups[:2] + gen_groups + groups[2:]
         cfg_groups = [cfg_group(n) for n in cfgs]
         # cheap groups first
         groups = groups[:2] + cfg_groups[:1] + groups[2:] + cfg_groups[1:] if tier == "quick" else groups[:2] + cfg_groups + groups[2:]
@@ -221,7 +238,8 @@ def main(tier, replay=None):
             results[(gi, o)] = s
         judge(ctx, groups, osets, results)
     return ctx.finish(
-        rule="every group of the corpus (samples; handmade triggers; %s; test/cfg files %s with their library) x ALL 64 "
+        rule="every group of the corpus (samples; handmade triggers; generated families multi-severity construct x literal "
+             "kind (incl. all pairs) and trigger x value provenance x type; %s; test/cfg files %s with their library) x ALL 64 "
              "option sets (32 subsets of --enable=%s x with/without --inconclusive), one run each; oracle (a) on every "
              "finding of every run, oracle (b) on all 192 covering edges per group; distinct/nontrivial = covering edges "
              "whose two finding sets differ (the added option changed what is reported)"
